@@ -183,6 +183,7 @@ impl Check for C15 {
             let text = TextSpec { crlf: vec![false; lines.len()], lines, trailing_nl: false };
             events.push(Event { actor: 0, op: if session { Op::SessionText { text } } else { Op::Execute { lang: lang.into(), text } }, clock });
         }
+        crate::gen::decliner_variants(&mut r, &mut events);
         Trace { check: "C15".into(), seed, host_tz: env.host_tz.clone(), salt: 0, mode: format!("{}{}{}", first_lang, if session { "+session" } else { "" }, if user_units { "+user-units" } else { "" }), events }
     }
 
